@@ -66,6 +66,20 @@ impl KComp for u16 {
     }
 }
 
+impl KComp for i32 {
+    const MAX: i64 = 0;
+    fn to_i64(self) -> i64 {
+        self as i64
+    }
+}
+/// f32 components are only ever compared bit for bit (copy / nearest paths).
+impl KComp for f32 {
+    const MAX: i64 = 0;
+    fn to_i64(self) -> i64 {
+        self.to_bits() as i64
+    }
+}
+
 /// Reinterpret a component array as pixels (layout: `Pixel<[C; N], C, N>` is `repr(C)` over `[C; N]`).
 pub fn as_pixels<P: InnerPixel>(comps: &[P::Component]) -> &[P] {
     let n = comps.len() / P::count_of_components();
